@@ -782,12 +782,25 @@ def gen_catalog_gcc(loader, check, replay_on=True):
             check.ob("GCCStmtDeclExpr.il_read#value-is-the-last-expression", inst, p.ctx.pc, r == 'VARL("val")', detail=repr(r))
 
 
+def gen_history(loader, check, replay_on=True):
+    """'exactly once' across behaviours: the pending table is empty whenever a new behaviour starts - also after a behaviour that was
+    rejected while an effect was still pending (the reset / entry-point contracts of C14, restricted to the pending table)"""
+    from . import c14
+    saved = getattr(check, "ob_filter", None)
+    check.ob_filter = r"#reset\.holder\.hybrid_effect_dict|#total"
+    try:
+        c14.gen_reset(loader, check, replay_on)
+        c14.gen_entry_points(loader, check, replay_on)
+    finally:
+        check.ob_filter = saved
+
+
 def gen_task(loader, check, what, replay_on=True):
-    {"resolve": gen_resolve, "chk": gen_chk, "selected": gen_selected, "gcc": gen_catalog_gcc}[what](loader, check, replay_on)
+    {"resolve": gen_resolve, "chk": gen_chk, "selected": gen_selected, "gcc": gen_catalog_gcc, "history": gen_history}[what](loader, check, replay_on)
 
 
 def generate_reduced(loader, check):
-    for w in ("resolve", "chk", "selected", "gcc"):
+    for w in ("resolve", "chk", "selected", "gcc", "history"):
         gen_task(loader, check, w, False)
 
 
@@ -798,7 +811,7 @@ def run(check: Check):
                 "its own operands; pending operands of a hybrid are handled by resolve_hybrid itself)")
     check.assume("the pending table is keyed by the temporaries' names h_tmp<N> with symbolic N; user variables are not named h_tmp<digits>")
     check.assume("A-NAMES: add_op through its contract (except the dead-arm instance, which uses the real add_op on a fresh holder)")
-    check.run_parallel("contracts.c06", "gen_task", [{"what": w} for w in ("resolve", "chk", "selected", "gcc")], workers=WORKERS)
+    check.run_parallel("contracts.c06", "gen_task", [{"what": w} for w in ("resolve", "chk", "selected", "gcc", "history")], workers=WORKERS)
     run_mutants(check, MUTANTS, "contracts.c06", "generate_reduced")
     return check.finish(
         level="proof",
